@@ -40,7 +40,7 @@ TOL = 1e-9
 
 def plan(tier, seed):
     n = 16
-    per = 14 if tier == "quick" else 150
+    per = 56 if tier == "quick" else 500
     return [{"name": "s%02d" % i, "shard": i, "instances": per, "timeout": 7000} for i in range(n)]
 
 
